@@ -248,7 +248,9 @@ func explore(w *World, h *harnessRun, workers []*Worker, maxPaths int, deadline 
 				np := h.paths
 				h.mu.Unlock()
 				if progress && np%200 == 0 {
+					h.mu.Lock()
 					fmt.Fprintf(os.Stderr, "[progress] %s paths=%d pending=%d ends=%v %.0fs\n", h.name, np, len(work), h.ends, time.Since(start).Seconds())
+					h.mu.Unlock()
 				}
 				if np >= maxPaths || time.Now().After(deadline) {
 					if (len(work) > 0 || active > 0) && !stopped {
